@@ -10,6 +10,7 @@ import (
 	"verif/engine/build"
 	"verif/engine/props/c01"
 	"verif/engine/props/c06"
+	"verif/engine/props/c13"
 	"verif/engine/props/core"
 )
 
@@ -21,6 +22,7 @@ var checks = map[string]struct {
 }{
 	"C01": {"translation_validation", c01.Run},
 	"C06": {"model_checking", c06.Run},
+	"C13": {"model_checking", c13.Run},
 }
 
 func main() {
